@@ -32,7 +32,7 @@ Every hypothesis of a registered theorem is one of:
 * **needed, and the real code misbehaves without it** (a `_counterexample` theorem each, replayed on the
   code): a monotone, non-collapsing search in `zcTier_I_mono` (`tgBoundaries_collapse_counterexample`);
   completeness of the search is not a hypothesis but is not a theorem either (`incomplete_counterexample`).
-* **were needed and are now enforced by the code** (defect C18-3, repaired by f81e27e; section 14b): an insertion
+* **were needed and are now enforced by the code** (defect C18-3, repaired by e7d7671; section 14b): an insertion
   point inside the textgrid's span (`splice_outside_rejected`; `splice_outside_counterexample` records what the
   unrepaired code returned), a segment with the audio's rate and width (`splice_params_rejected`;
   `splice_segment_params_counterexample`), a region that is not reversed (`splice_reversed_rejected`).
@@ -1087,8 +1087,8 @@ theorem unpack_slice (w : Nat) (hw : 0 < w) (f : List UInt8) (n : Nat) (hf : f.l
     exact Nat.mul_mod_left _ _
 
 /-- **getSamples at any two times** (negative, beyond the end, off the grid) on a recording of whole samples:
-a reversed pair raises `ArgumentError` (commit 0a07868); every other pair returns `samples[i : j]` with `i`, `j` the
-sample boundaries of the recording nearest to the two times (`round(t·rate)` clamped into `[0, n]`, commit 300c9d2),
+a reversed pair raises `ArgumentError` (commit 906b45b); every other pair returns `samples[i : j]` with `i`, `j` the
+sample boundaries of the recording nearest to the two times (`round(t·rate)` clamped into `[0, n]`, commit 3f424d1),
 and nothing else is ever raised -/
 theorem getSamples_slice (wv : Wav) (hwv : C16.Whole wv) (hk : knownWidth wv.width = true) (s e : QTime) :
     wv.getSamples s e =
@@ -1307,7 +1307,7 @@ theorem splice_tier_inside (t : ITier Int) (hwf : t.WF) (a d : Int) (hd : 0 < d)
   exact ⟨t2, e, wf2, by rw [lo2]; omega, by rw [hi2]; omega⟩
 
 /-- **an insertion point outside the tier's span: what the tier-level splice would do** (this is the behaviour of
-`audioSplice` before the repair f81e27e, defect C18-3; the call is now rejected up front: `splice_outside_rejected`;
+`audioSplice` before the repair e7d7671, defect C18-3; the call is now rejected up front: `splice_outside_rejected`;
 the statement remains a fact about the tier operation): no error, and the named tier's span then grows by MORE than the segment — beyond the end the
 tier ends at `a + d`, later than the textgrid (whose end is `old end + d`) and than the audio (into which
 the segment is inserted at its clamped end, `len + segment`); before the start the tier starts at `a`,
@@ -1560,7 +1560,7 @@ theorem splice_sync (g g' : Tg Int) (name label : String) (a : Int) (wv : Wav) (
   refine ⟨_, (spliceWav_length wv seg qa).1, ?_⟩
   rw [hhi, insertSpace_hi g g2 a _ _ .stretch hH h2 hts, (spliceWav_length wv seg qa).2, Int.natCast_add]
 
-/-- (Behaviour of `audioSplice` before the repair f81e27e, defect C18-3; a segment with other parameters is now
+/-- (Behaviour of `audioSplice` before the repair e7d7671, defect C18-3; a segment with other parameters is now
 rejected up front: `splice_params_rejected`.  The statement remains a fact about the two halves of the splice.)
 **`d` must be the duration of the segment in the audio's own units** — the hypothesis hidden in
 `splice_sync`'s use of `seg.length` for `d`.  `audioSplice` takes `d = spliceSegment.duration`, computed with
@@ -1627,7 +1627,7 @@ theorem insertSpace_tier_hi (t : AnyTier Int) (t' : AnyTier Int) (a d H : Int) (
 /-- the audio after a splice with a replaced region `[a, b]`: the samples before `a`, the segment, the
 samples from `b` on — every other sample keeps value and order.  `wv.sampleIndex t` is the sample boundary of the
 recording nearest to `t` (`C16.sampleIndex_nearest`): a start before the recording addresses its first sample
-(commit 300c9d2; it used to be read as a negative Python index).  Hypotheses: whole samples (C16's domain);
+(commit 3f424d1; it used to be read as a negative Python index).  Hypotheses: whole samples (C16's domain);
 a segment of whole samples of the audio's width (`hseg`); the two times address an ordered pair of
 boundaries (`hab`; a reversed region is rejected: `splice_region_reversed`); the region does not end beyond the
 recording (`hb`: there the segment is appended and the deletion, computed in the lengthened recording, reaches
@@ -1659,7 +1659,7 @@ theorem spliceWav_region_samples (wv : Wav) (hwv : C16.Whole wv) (seg : List UIn
   rw [List.append_assoc, List.take_append_of_le_length (by omega), List.take_take, Nat.min_eq_left hi,
     List.drop_left' htl, List.append_assoc]
 
-/-- a reversed region: the audio half raises `ArgumentError` (`deleteSegment`, commit 0a07868) instead of
+/-- a reversed region: the audio half raises `ArgumentError` (`deleteSegment`, commit 906b45b) instead of
 duplicating audio -/
 theorem spliceWav_region_reversed (wv : Wav) (seg : List UInt8) (a b : QTime) (h : b < a) :
     spliceWav wv seg a (some b) = .error .ArgumentError := by
@@ -1684,7 +1684,7 @@ claimed.  `tgBoundariesToZeroCrossings` likewise edits the textgrid it is given 
 the same object); when it raises on a later tier (`zcTier_I_collapse`, `zcTier_I_search_error`) the tiers
 before it have already been replaced. -/
 
-/-! ## 14b. the argument checks of `audioSplice` (commit f81e27e, defect C18-3)
+/-! ## 14b. the argument checks of `audioSplice` (commit e7d7671, defect C18-3)
 
 Before the repair `audioSplice` accepted an insertion point outside the textgrid's span and a segment of another frame
 rate / sample width (`splice_outside_counterexample`, `splice_segment_params_counterexample`: results in which tier,
@@ -1767,7 +1767,7 @@ theorem splice_outside_rejected (g : Tg Int) (same : Bool) (t0 : Int) (t0s : Opt
     · rw [h4 s hs] at h; cases h
 
 /-- **a reversed region is rejected before anything is done** (it used to raise only after the caller's audio had
-been lengthened and, before 0a07868, the region's audio duplicated) -/
+been lengthened and, before 906b45b, the region's audio duplicated) -/
 theorem splice_reversed_rejected (g : Tg Int) (same : Bool) (t0 s : Int) (shifts : List (Int × Int))
     (name label : String) (a : Int) (b : Option Int) (d : Int) (h : s < t0) :
     audioSpliceTg g same t0 (some s) shifts name label a b d = .error .ArgumentError := by
